@@ -216,7 +216,7 @@ def monRun (w : List String) : String :=
 
 def renderNode : FaultBuilder.Node → String
   | .section i => s!"S{i}"
-  | .inst k c => s!"I{k}" ++ (if c then "c" else "")
+  | .inst k x o c => s!"I{k}" ++ (if x != 0 then s!"x{x}" else "") ++ (if o != 0 then s!"o{o}" else "") ++ (if c then "c" else "")
   | .label i => s!"L{i}"
   | .align n => s!"A{n}"
   | .data n => s!"D{n}"
@@ -224,7 +224,7 @@ def renderNode : FaultBuilder.Node → String
   | .comment n => s!"C{n}"
 
 def renderBView (v : FaultBuilder.BView) : String :=
-  "N=" ++ joinC (v.nodes.map renderNode) ++ s!" LC={v.labelCount}"
+  "N=" ++ joinC (v.nodes.map renderNode) ++ s!" LC={v.labelCount} P={v.pendExtra},{v.pendOpts},{if v.pendCmt then 1 else 0}"
 
 def renderBCaps (c : FaultBuilder.BCaps) : String :=
   s!"C={c.labCap},{c.lnCap} LN=" ++ String.join (c.lnodes.map fun b => if b then "1" else "0")
@@ -235,7 +235,10 @@ def bErrName : Err → String
 
 def parseBOp (w : List String) : Option FaultBuilder.BOp :=
   match w with
-  | ["emit", k, c] => do let k ← k.toNat?; let c ← c.toNat?; some (.emit k (c != 0))
+  | ["emit", k] => k.toNat?.map .emit
+  | ["setextra", r] => r.toNat?.map .setExtra
+  | ["setopts", b] => b.toNat?.map .setOpts
+  | ["setcmt"] => some .setComment
   | ["newlabel"] => some .newLabel
   | ["clabel"] => some .codeLabel
   | ["bind", l] => l.toNat?.map .bind
@@ -261,6 +264,8 @@ def bModelStep (d : DS) (w : List String) : DS × String :=
 /-- monitor of a Builder call: out of memory => the node list is unchanged and at most one label id was used up (only by
 `newlabel`); otherwise the failure-free effect, except that a comment that could not be duplicated may be dropped -/
 def bMonStep (d : DS) (w : List String) (impl : String) : DS × String :=
+  -- `ser` (serialization of the node list) is judged by comparing bytes with the failure-free run (tools/props/c15.py)
+  if w.getD 1 "" == "ser" then (d, "good") else
   match impl.splitOn " | " with
   | [h, view, _] =>
     let err := (words h).headD ""
@@ -271,7 +276,13 @@ def bMonStep (d : DS) (w : List String) (impl : String) : DS × String :=
       | none => (d, "BAD bad-op")
       | some op =>
         if err == "OutOfMemory" then
-          if view == renderBView d.bsv then (d, "good")
+          let isEmit := match op with | .emit _ => true | _ => false
+          let cleared := FaultBuilder.clearOneShot d.bsv
+          if isEmit then
+            -- a failed `_emit` must leave NO pending extra register / options / comment behind
+            if view == renderBView cleared then ({ d with bsv := cleared }, "good")
+            else (d, "BAD out-of-memory answer of _emit: the node list changed or one-shot state (extra register / options / comment) is still pending")
+          else if view == renderBView d.bsv then (d, "good")
           else
             let leaked := { d.bsv with labelCount := d.bsv.labelCount + 1 }
             if op == .newLabel && view == renderBView leaked then ({ d with bsv := leaked }, "good")
@@ -279,7 +290,7 @@ def bMonStep (d : DS) (w : List String) (impl : String) : DS × String :=
         else
           let (v', e') := FaultBuilder.bspec op d.bsv
           let alt : FaultBuilder.BView := match op with
-            | .emit k true => { d.bsv with nodes := d.bsv.nodes ++ [.inst k false] }
+            | .emit k => { FaultBuilder.clearOneShot d.bsv with nodes := d.bsv.nodes ++ [.inst k d.bsv.pendExtra d.bsv.pendOpts false] }
             | _ => v'
           if bErrName e' != err then (d, s!"BAD answer {err}, the failure-free answer is {bErrName e'}")
           else if view == renderBView v' then ({ d with bsv := v' }, "good")
@@ -291,11 +302,12 @@ def bMonStep (d : DS) (w : List String) (impl : String) : DS × String :=
 /-! ### BaseCompiler lines -/
 
 def renderCNode : FaultCompiler.CNode → String
-  | .section => "S" | .func l => s!"F{l}" | .label i => s!"L{i}" | .sentinel => "Z" | .inst k => s!"I{k}" | .invoke n => s!"V{n}"
+  | .section => "S" | .func l => s!"F{l}" | .label i => s!"L{i}" | .sentinel => "Z"
+  | .inst k x o => s!"I{k}" ++ (if x != 0 then s!"x{x}" else "") ++ (if o != 0 then s!"o{o}" else "") | .invoke n => s!"V{n}"
 
 def renderCView (v : FaultCompiler.CView) : String :=
   "N=" ++ joinC (v.nodes.map renderCNode) ++ s!" CUR={v.cursor} LC={v.labelCount} R=" ++
-  String.join (v.regs.map fun b => if b then "1" else "0")
+  String.join (v.regs.map fun b => if b then "1" else "0") ++ s!" P={v.pendExtra},{v.pendOpts}"
 
 def renderCCaps (c : FaultCompiler.CCaps) : String := s!"C={c.labCap},{c.lnSize},{c.lnCap},{c.vregCap}"
 
@@ -309,6 +321,8 @@ def parseCOp (w : List String) : Option FaultCompiler.COp :=
   | ["invoke", n] => n.toNat?.map .invoke
   | ["emit", k] => k.toNat?.map .emit
   | ["endfunc"] => some .endFunc
+  | ["setextra", r] => r.toNat?.map .setExtra
+  | ["setopts", b] => b.toNat?.map .setOpts
   | _ => none
 
 def cModelStep (d : DS) (w : List String) : DS × String :=
@@ -337,13 +351,17 @@ def cMonStep (d : DS) (w : List String) (impl : String) : DS × String :=
       | none => (d, "BAD bad-op")
       | some op =>
         if err == "OutOfMemory" then
-          let l1 := { d.csv with labelCount := d.csv.labelCount + 1 }
-          let l2 := { d.csv with labelCount := d.csv.labelCount + 2 }
+          -- a failed `_emit` / `add_func` / `invoke` must leave no pending extra register / options behind
+          let base := match op with
+            | .emit _ | .addFunc _ | .invoke _ => FaultCompiler.clearPending d.csv
+            | _ => d.csv
+          let l1 := { base with labelCount := base.labelCount + 1 }
+          let l2 := { base with labelCount := base.labelCount + 2 }
           let isFunc := match op with | .addFunc _ => true | _ => false
-          if view == renderCView d.csv then (d, "good")
+          if view == renderCView base then ({ d with csv := base }, "good")
           else if isFunc && view == renderCView l1 then ({ d with csv := l1 }, "good")
           else if isFunc && view == renderCView l2 then ({ d with csv := l2 }, "good")
-          else (d, "BAD out-of-memory answer but the node list / cursor / registers changed")
+          else (d, "BAD out-of-memory answer but the node list / cursor / registers changed or one-shot state is still pending")
         else
           let (v', e') := FaultCompiler.cspec op d.csv
           let alt : FaultCompiler.CView := match op with
